@@ -6,9 +6,9 @@ Statement records (field "k"):
 `c` is "c" (the bool parameter of main) or a variable name (the condition reads it).
 "l" (1-based line inside the rendered source text) is filled in by `render`.
 
-The generator never produces dead code (a statement after one that always jumps), literal
-True/False conditions or `while True`: Guppy type-checks dead code through dummy edges, and
-the property's path reading says nothing about code no path reaches.
+Statements after a jump (dead code) are generated too: Guppy checks them along never-taken
+edges and spec/Scoping.tla models exactly that.  Never generated: literal True/False conditions
+and `while True`.
 """
 from __future__ import annotations
 
@@ -38,6 +38,39 @@ def always_jumps(ss: list) -> bool:
     return False
 
 
+def has_dead(ss: list) -> bool:
+    """Does some statement follow one that always jumps?"""
+    for i, s in enumerate(ss):
+        if i > 0 and always_jumps(ss[:i]):
+            return True
+        if any(has_dead(s[f]) for f in ("a", "b") if f in s):
+            return True
+    return False
+
+
+def all_lines(ss: list) -> set:
+    out = set()
+    for s in ss:
+        out.add(s.get("l"))
+        for f in ("a", "b"):
+            if f in s:
+                out |= all_lines(s[f])
+    return out
+
+
+def inner_dead_lines(ss: list, in_def: bool = False) -> set:
+    """Lines (of a rendered body) of statements in dead code of a nested function."""
+    out = set()
+    for i, s in enumerate(ss):
+        if in_def and i > 0 and always_jumps(ss[:i]):
+            out |= all_lines(ss[i:])
+            break
+        for f in ("a", "b"):
+            if f in s:
+                out |= inner_dead_lines(s[f], in_def or s["k"] == "def")
+    return out
+
+
 def size(ss: list) -> int:
     n = 0
     for s in ss:
@@ -60,8 +93,6 @@ def depth(ss: list) -> int:
 def wellformed(ss: list, in_loop=False, in_def=False, top=True) -> str | None:
     """Independent check of the generator's promises; returns a reason or None."""
     for i, s in enumerate(ss):
-        if i > 0 and always_jumps(ss[:i]):
-            return "dead code"
         k = s["k"]
         if k in ("break", "continue") and not in_loop:
             return f"{k} outside loop"
@@ -217,7 +248,7 @@ def jumps(in_loop: bool) -> list:
 
 
 def enum_lists(n: int, d: int, in_loop: bool, in_def: bool, memo: dict):
-    """All statement lists of total size exactly n, nesting <= d, without dead code."""
+    """All statement lists of total size exactly n, nesting <= d (dead code included)."""
     mk = (n, d, in_loop, in_def)
     if mk in memo:
         return memo[mk]
@@ -227,10 +258,6 @@ def enum_lists(n: int, d: int, in_loop: bool, in_def: bool, memo: dict):
     else:
         for k1 in range(1, n + 1):  # size of the first statement
             for first in enum_stmts(k1, d, in_loop, in_def, memo):
-                if always_jumps([first]):
-                    if k1 == n:
-                        res.append([first])
-                    continue
                 for rest in enum_lists(n - k1, d, in_loop, in_def, memo):
                     res.append([first, *rest])
     memo[mk] = res
@@ -300,6 +327,49 @@ def jump_family() -> list:
     return out
 
 
+def dead_family() -> list:
+    """Code after return/break/continue that reads a variable, where the statement list first crosses
+    a block boundary (if / loop) and assigns the variable after it, inside it, or not at all."""
+    asg = lambda v, t: {"k": "asg", "v": v, "t": t}
+    use = lambda v: {"k": "use", "v": v}
+    IF = lambda a, b: {"k": "if", "c": "c", "a": a, "b": b}
+    boundaries = [
+        ([IF([], [])], False), ([{"k": "while", "c": "c", "a": []}], False), ([{"k": "for", "v": "vi", "a": []}], False),
+        ([IF([asg("va", "int")], [asg("va", "int")])], True), ([IF([asg("va", "int")], [asg("va", "bool")])], True),
+        ([IF([asg("va", "int")], [])], True), ([{"k": "while", "c": "c", "a": [asg("va", "int")]}], True),
+        ([{"k": "for", "v": "va", "a": []}], True), ([], False),
+    ]
+    tails = [[use("va")], [{"k": "cpy", "v": "vb", "s": "va"}, use("vb")], [{"k": "if", "c": "va", "a": [], "b": []}],
+             [{"k": "def", "a": [use("va")]}], [asg("va", "bool"), use("va")], [IF([asg("va", "bool")], []), use("va")],
+             [{"k": "ret"}, use("va")]]
+    out = []
+    for bnd, assigns in boundaries:
+        for mid in ([], [asg("va", "int")], [asg("vb", "int")]):
+            for tail in tails:
+                core = bnd + mid
+                out.append(core + [{"k": "ret"}] + tail)                                   # top level
+                out.append([IF(core + [{"k": "ret"}] + tail, [])])                        # inside an if arm
+                out.append([IF(core + [{"k": "ret"}] + tail, [{"k": "ret"}]), use("va")])  # dead arm falls into the code after the if
+                for j in ("break", "continue"):
+                    out.append([{"k": "while", "c": "c", "a": core + [{"k": j}] + tail}, use("va")])
+                out.append([asg("va", "int"), {"k": "for", "v": "vi", "a": core + [IF([{"k": "break"}], [{"k": "continue"}])] + tail}])
+    # dead code inside a nested function that reads an outer variable, the definition sitting behind a
+    # block boundary of main (the captured-variable computation and the checker must agree on such reads)
+    for rd in ([use("vb")], [{"k": "cpy", "v": "va", "s": "vb"}], [{"k": "if", "c": "vb", "a": [], "b": []}]):
+        d = {"k": "def", "a": [{"k": "ret"}] + rd}
+        out.append([asg("vb", "int"), IF([d], [])])
+        out.append([asg("vb", "int"), {"k": "while", "c": "c", "a": [d]}])
+        out.append([asg("vb", "int"), {"k": "for", "v": "va", "a": [d]}, use("va")])
+        out.append([IF([asg("vb", "int")], []), IF([d], [])])
+    seen, res = set(), []
+    for p in out:
+        p = json.loads(json.dumps(p))
+        if key(p) not in seen and depth(p) <= 3:
+            seen.add(key(p))
+            res.append(p)
+    return res
+
+
 def random_list(rng: random.Random, budget: int, d: int, in_loop: bool, in_def: bool) -> list:
     """Random statement list of total size <= budget (>= 1 if budget >= 1)."""
     out = []
@@ -307,7 +377,7 @@ def random_list(rng: random.Random, budget: int, d: int, in_loop: bool, in_def: 
         s, used = random_stmt(rng, budget, d, in_loop, in_def)
         out.append(s)
         budget -= used
-        if always_jumps(out):
+        if always_jumps(out) and rng.random() < 0.6:
             break
         if rng.random() < 0.15:
             break
